@@ -1010,7 +1010,7 @@ class FuncFlow:
             if cal is not None:
                 return self._ev_repo_call(e, node, env, look, index, f'{f.id}()', cal)
             lab = frozenset([f'call:{f.id}()'])
-            if f.id in PURE_NAMES or f.id[:1].isupper() or (f.id in BUILTIN_NAMES and f.id not in IMPURE_BUILTINS):
+            if f.id in PURE_NAMES or f.id.lstrip('_')[:1].isupper() or self.mod.has_cls(f.id) or (f.id in BUILTIN_NAMES and f.id not in IMPURE_BUILTINS):
                 return frozenset(), lab | self._args_val(e, node, env, look)[1]
             return self._maybe(None, f'function {f.id}', f'call:{f.id}()', self._args_val(e, node, env, look))   # unknown callee
         if isinstance(f, ast.Attribute):
@@ -1356,7 +1356,7 @@ class FuncFlow:
                 cal = self._callee(c)
                 if cal is not None:
                     via_summary(n, c, self.an.summary(cal[1], cal[2], cal[3], self.depth - 1), cal[3], False, (), False, f'{f.id}()')
-                elif not (f.id in PURE_NAMES or f.id[:1].isupper() or f.id in ('isinstance', 'len', 'bool', 'int', 'any', 'all', 'hasattr',
+                elif not (f.id in PURE_NAMES or f.id.lstrip('_')[:1].isupper() or self.mod.has_cls(f.id) or f.id in ('isinstance', 'len', 'bool', 'int', 'any', 'all', 'hasattr',
                                                                                 'getattr', 'print', 'repr', 'type', 'id', 'min', 'max', 'sum', 'range', 'open', 'super')):
                     out.append((n, f'unknown function {f.id}()', args_of(c), None, None, False))
                 return
